@@ -43,6 +43,19 @@ func (c c17ReplicaSets) Update(ctx context.Context, rs *apps.ReplicaSet, opts me
 	*c.written = append(*c.written, rs)
 	return rs, nil
 }
+func (c c17ReplicaSets) Create(ctx context.Context, rs *apps.ReplicaSet, opts metav1.CreateOptions) (*apps.ReplicaSet, error) {
+	*c.written = append(*c.written, rs)
+	return rs, nil
+}
+
+type c17Deployments struct {
+	appsv1client.DeploymentInterface
+}
+
+func (c c17Apps) Deployments(ns string) appsv1client.DeploymentInterface { return c17Deployments{} }
+func (c c17Deployments) UpdateStatus(ctx context.Context, d *apps.Deployment, opts metav1.UpdateOptions) (*apps.Deployment, error) {
+	return d, nil
+}
 
 func VerifC17_ScaleReplicaSetStampsSizeAndSurge() {
 	maxR := verifrt.Bound("R", 200, 100000)
@@ -150,4 +163,45 @@ func VerifC17_ScaleAbsorbsTheScalingEvent() {
 	} else {
 		verifrt.Cover("scale-down")
 	}
+}
+
+// VerifC17_NewReplicaSetIsCreatedWithinPartitionAndSurge: the first sync after a template change creates the new
+// ReplicaSet.  Its initial size obeys the same two limits as every later scale-up: not more pods of the new revision
+// than the partition allows, and not more pods in total (old ReplicaSets included) than replicas + maxSurge.
+func VerifC17_NewReplicaSetIsCreatedWithinPartitionAndSurge() {
+	maxR := verifrt.Bound("R", 200, 100000)
+	R := int32(verifrt.IntRange("R", 1, maxR))
+	d := &apps.Deployment{ObjectMeta: metav1.ObjectMeta{Namespace: "ns", Name: "w", UID: "uid-w"}}
+	d.Spec.Replicas = &R
+	d.Spec.Selector = &metav1.LabelSelector{MatchLabels: map[string]string{"app": "w"}}
+	d.Spec.Template.Labels = map[string]string{"app": "w", "ver": "v2"}
+	ms := intstr.FromInt(verifrt.IntRange("maxSurge.int", 0, maxR))
+	mu := intstr.FromInt(verifrt.IntRange("maxUnavailable.int", 0, maxR))
+	verifrt.Assume(ms.IntVal > 0 || mu.IntVal > 0)
+	part := intstr.FromInt(verifrt.IntRange("partition.int", 0, maxR))
+	strategy := rolloutsv1alpha1.DeploymentStrategy{RollingStyle: rolloutsv1alpha1.PartitionRollingStyle, Partition: part,
+		RollingUpdate: &apps.RollingUpdateDeployment{MaxSurge: &ms, MaxUnavailable: &mu}}
+	// pods of the old revision exist (with none left the new ReplicaSet is simply the Deployment: the controller then
+	// creates it at full size by design, there is nothing for a partition to hold back)
+	oldSize := int32(verifrt.IntRange("old.replicas", 1, 2*maxR))
+	verifrt.Assume(oldSize <= R+ms.IntVal)
+	oldRS := &apps.ReplicaSet{ObjectMeta: metav1.ObjectMeta{Namespace: "ns", Name: "w-old", Annotations: map[string]string{deploymentutil.RevisionAnnotation: "1"}}}
+	oldRS.Spec.Replicas = &oldSize
+	oldRS.Spec.Template.Labels = map[string]string{"app": "w", "ver": "v1", apps.DefaultDeploymentUniqueLabelKey: "hash-v1"}
+	oldRS.Status.Replicas, oldRS.Status.AvailableReplicas = oldSize, oldSize
+	var written []*apps.ReplicaSet
+	dc := &DeploymentController{eventRecorder: record.NewFakeRecorder(10), strategy: strategy, client: c17Clientset{written: &written}}
+	rs, err := dc.getNewReplicaSet(context.TODO(), d, []*apps.ReplicaSet{oldRS}, []*apps.ReplicaSet{oldRS}, true)
+	verifrt.Assert(err == nil && rs != nil && len(written) == 1, "C17.create.createsTheNewReplicaSet")
+	if err != nil || rs == nil || len(written) != 1 {
+		return
+	}
+	newSize := *written[0].Spec.Replicas
+	limit := deploymentutil.NewRSReplicasLimit(part, d)
+	lower := deploymentutil.NewRSReplicasLowerBound(d, &strategy)
+	// (the controller keeps at least the lower bound — one pod unless the Deployment has none — so that the native
+	// controller does not fight it; that single pod is the only excess the limits admit)
+	verifrt.Assert(newSize <= limit || newSize <= lower, "C17.create.withinThePartition")
+	verifrt.Assert(oldSize+newSize <= R+ms.IntVal || newSize <= lower, "C17.create.withinReplicasPlusSurge")
+	verifrt.Assert(written[0].Spec.Template.Labels["ver"] == "v2", "C17.create.carriesTheNewTemplate")
 }
